@@ -346,12 +346,12 @@ Section Ext.
     ext_res (parts_body orc' rec' cl rawp tmode start acc s)
             (parts_body orc rec cl rawp tmode (start + length rest) acc (s ++ rest)).
   Proof.
-    intros Hs. unfold parts_body.
+    intros Hs. unfold parts_body. cbv zeta.
     pose proof (scan_ext rest true rawp _ s cl false [] (le_n _)) as H.
     pose proof (scan_sfx true rawp _ s cl false [] (le_n _)) as Hx.
     destruct (scan true rawp cl false [] s) as [body cl' r|body cl' r| | |]; cbn [scan_ext_ok scan_suffix] in H, Hx; try exact I.
     - rewrite H, finish_chunk_eq. destruct (finish_chunk orc' rawp false body); [|exact I].
-      cbn [ext_res]. rewrite len_app, add_str_eq. reflexivity.
+      cbn [ext_res]. rewrite !len_app, add_str_eq. reflexivity.
     - destruct r as [|c0 r0].
       { destruct (finish_chunk orc' rawp false body); [|exact I].
         pose proof (rec_nil (MField rawp tmode)) as Hn. pose proof (Hshape (MField rawp tmode) []) as H2.
@@ -359,7 +359,7 @@ Section Ext.
       rewrite H by discriminate. rewrite finish_chunk_eq. destruct (finish_chunk orc' rawp false body); [|exact I].
       assert (Hsr : sem (c0 :: r0)) by (eapply sem_suffix; eauto).
       call (MField rawp tmode) (c0 :: r0) Hsr.
-      rewrite len_app, add_str_eq.
+      rewrite !len_app, add_str_eq.
       match goal with |- ext_res (rec' ?m ?u) _ => apply (Hext m u I) end. eapply sem_suffix; eauto.
   Qed.
 
@@ -413,7 +413,7 @@ Section Ext.
                        | c2 :: r2 => field_after orc' rec' rawp tmode dbg (length s)
                             (if dbg then [mk orc' (length s) (length s5) (Str (firstn (length s - length s5) s) None)] else [])
                             m (firstn (length (c1 :: r1) - length s2) (c1 :: r1)) (Some c2) r2
-                       | [] => RLex end
+                       | [] => RPrem end
                      else field_after orc' rec' rawp tmode dbg (length s)
                             (if dbg then [mk orc' (length s) (length s5) (Str (firstn (length s - length s5) s) None)] else [])
                             m (firstn (length (c1 :: r1) - length s2) (c1 :: r1)) None s5
@@ -427,7 +427,7 @@ Section Ext.
                             (if dbg then [mk orc (length (s ++ rest)) (length (s5 ++ rest))
                                             (Str (firstn (length (s ++ rest) - length (s5 ++ rest)) (s ++ rest)) None)] else [])
                             m (firstn (length (c1 :: r1) - length s2) (c1 :: r1)) (Some c2) r2
-                       | [] => RLex end
+                       | [] => RPrem end
                      else field_after orc rec rawp tmode dbg (length (s ++ rest))
                             (if dbg then [mk orc (length (s ++ rest)) (length (s5 ++ rest))
                                             (Str (firstn (length (s ++ rest) - length (s5 ++ rest)) (s ++ rest)) None)] else [])
